@@ -39,6 +39,9 @@
 #include <tbox/base/json.hpp>
 #include <tbox/main/module.h>
 #include <memory>
+#include <mutex>
+#include <pthread.h>
+#include <time.h>
 
 namespace c11 {
 using tbox::Json;
@@ -60,7 +63,8 @@ inline const char *call_name(int k) {
 
 // namemode: 0 unnamed, 1 named (constructor), 2 named through addAs(), 3 named and the config field is missing
 // init/start: 0 hook returns true, 1 returns false, 2 returns false on the first attempt only
-struct NodeSpec { int parent = -1; bool optional = false; int namemode = 0; int init = 0; int start = 0; };
+// stop_ms / cleanup_ms: how long onStop / onCleanup take (real runners only: hooks that flush, wait for a worker, ...)
+struct NodeSpec { int parent = -1; bool optional = false; int namemode = 0; int init = 0; int start = 0; int stop_ms = 0; int cleanup_ms = 0; };
 struct TreeSpec {
   std::vector<NodeSpec> nodes;   // nodes[0] is the root; parent < own index
   bool fillcfg = false;          // build the config with fillDefaultConfig() (as Main() does) instead of by hand
@@ -83,14 +87,35 @@ inline void normalise(TreeSpec &t) {
 struct World;
 class Probe;
 
+// Stream records of the real-runner child (3 bytes: node, kind, thread index): hook events as in the log, plus
+// kHookEnter+h when a hook starts executing and kHookLeave when it returns (entry AND exit, with the thread).
+enum HookType { H_INIT, H_START, H_STOP, H_CLEANUP };
+const unsigned char kHookEnter = 110, kHookLeave = 120;
+
 struct World {
   std::vector<Ev> log;
   int seg = 0;
-  int out_fd = -1;                                // main_runner child: stream the events to the parent
-  std::function<void(Probe &)> on_start_ok;       // main_runner: arrange the SIGTERM
+  int out_fd = -1;                                // real-runner child: stream the records to the parent
+  std::function<void(Probe &)> on_start_ok;
+  std::mutex mu;                                  // (child only) hooks may arrive from the loop thread as well
+  std::vector<pthread_t> threads;
   void emit(int node, int kind) {
+    if (out_fd < 0) { log.push_back(Ev{node, kind, seg}); return; }
+    std::lock_guard<std::mutex> g(mu);
     log.push_back(Ev{node, kind, seg});
-    if (out_fd >= 0) { unsigned char b[2] = {(unsigned char)node, (unsigned char)kind}; ssize_t r = ::write(out_fd, b, 2); (void)r; }
+    send(node, kind);
+  }
+  void enter(int node, int hook) { if (out_fd >= 0) { std::lock_guard<std::mutex> g(mu); send(node, kHookEnter + hook); } }
+  void leave(int node) { if (out_fd >= 0) { std::lock_guard<std::mutex> g(mu); send(node, kHookLeave); } }
+  void mark(int kind, int value = 0) { std::lock_guard<std::mutex> g(mu); send(value, kind); }
+  static void nap(int ms) { if (ms > 0) { struct timespec ts = {ms / 1000, (long)(ms % 1000) * 1000000L}; while (nanosleep(&ts, &ts) != 0 && errno == EINTR) {} } }
+ private:
+  void send(int node, int kind) {   // mu held
+    pthread_t me = pthread_self(); size_t ti = 0;
+    while (ti < threads.size() && !pthread_equal(threads[ti], me)) ++ti;
+    if (ti == threads.size()) threads.push_back(me);
+    unsigned char b[3] = {(unsigned char)node, (unsigned char)kind, (unsigned char)ti};
+    ssize_t r = ::write(out_fd, b, 3); (void)r;
   }
 };
 
@@ -111,7 +136,7 @@ class DummyCtx : public Context {
 class Probe : public Module {
  public:
   Probe(World &w, int idx, const NodeSpec &s, const std::string &name, Context &ctx)
-      : Module(name, ctx), w_(w), idx_(idx), init_(s.init), start_(s.start) {}
+      : Module(name, ctx), w_(w), idx_(idx), init_(s.init), start_(s.start), stop_ms_(s.stop_ms), cleanup_ms_(s.cleanup_ms) {}
   ~Probe() override { w_.emit(idx_, DTOR); }
   int idx() const { return idx_; }
 
@@ -119,22 +144,26 @@ class Probe : public Module {
   static bool outcome(int mode, int attempt) { return mode == 0 || (mode == 2 && attempt > 0); }
   void onFillDefaultConfig(Json &js) override { js["probe"] = idx_; }
   bool onInit(const Json &) override {
+    w_.enter(idx_, H_INIT);
     bool ok = outcome(init_, init_attempts_++);
     w_.emit(idx_, ok ? INIT_OK : INIT_FAIL);
+    w_.leave(idx_);
     return ok;
   }
   bool onStart() override {
+    w_.enter(idx_, H_START);
     bool ok = outcome(start_, start_attempts_++);
     w_.emit(idx_, ok ? START_OK : START_FAIL);
     if (ok && w_.on_start_ok) w_.on_start_ok(*this);
+    w_.leave(idx_);
     return ok;
   }
-  void onStop() override { w_.emit(idx_, STOP); }
-  void onCleanup() override { w_.emit(idx_, CLEANUP); }
+  void onStop() override { w_.enter(idx_, H_STOP); w_.emit(idx_, STOP); World::nap(stop_ms_); w_.leave(idx_); }
+  void onCleanup() override { w_.enter(idx_, H_CLEANUP); w_.emit(idx_, CLEANUP); World::nap(cleanup_ms_); w_.leave(idx_); }
 
  private:
   World &w_;
-  int idx_, init_, start_;
+  int idx_, init_, start_, stop_ms_, cleanup_ms_;
   int init_attempts_ = 0, start_attempts_ = 0;
 };
 
